@@ -103,7 +103,7 @@ func choiceCost(p *Point, k int) (int, int) {
 	if c.Kind == OpSleep {
 		// letting a sleeper continue while another thread could run is a deviation (time running fast)
 		for _, e := range p.Enabled {
-			if e.Thread >= 0 && e.Thread != c.Thread && e.Kind != OpSleep && e.Kind != OpIdle {
+			if e.Kind != OpSleep && (e.Thread != c.Thread) {
 				return 0, 1
 			}
 		}
